@@ -3,7 +3,7 @@ From Coq Require Import Extraction ExtrOcamlBasic NArith ZArith List.
 From PV Require Import Base.U32 Base.Scalar Shape.ShapeImpl Random.RandModel.
 Extraction Language OCaml.
 Extraction "../ocaml/gen/random_model.ml"
-  of_bits fcmp flt fle fgt feq nextafter fzero fone
+  of_bits fcmp flt fle fgt fge feq nextafter fzero fone val149 span_finite
   bernoulli_rejects uniform_rejects normal_rejects of_bool fixup
   step run gumbel dropout gumbel_elem dropout_elem
   fan_sum_2d conv_fan_in conv_fan_out conv_fan_sum apply_init devreq_request request_rejected
